@@ -88,6 +88,34 @@ def all_actions(spec: Any, cap: int = 200000) -> np.ndarray:
     ).reshape((-1,) + tuple(spec.shape))
 
 
+def spaced_actions(spec: Any, n: int) -> Tuple[np.ndarray, int]:
+    """`n` members of the action alphabet evenly spaced in lexicographic order (first and last included), for joint
+    alphabets too large to enumerate (e.g. 5**10 for the default Connector).  -> (actions, |alphabet|)"""
+    from jumanji import specs
+
+    dt = np.asarray(spec.generate_value()).dtype
+    if isinstance(spec, specs.DiscreteArray):
+        lo, hi, shape = np.zeros((), np.int64), np.asarray(spec.num_values - 1, np.int64), ()
+    elif isinstance(spec, specs.MultiDiscreteArray):
+        nv = np.asarray(spec.num_values)
+        lo, hi, shape = np.zeros(nv.shape, np.int64), nv.astype(np.int64) - 1, nv.shape
+    else:
+        shape = tuple(spec.shape)
+        lo = np.broadcast_to(np.asarray(spec.minimum), shape).astype(np.int64)
+        hi = np.broadcast_to(np.asarray(spec.maximum), shape).astype(np.int64)
+    radix = [int(h - l + 1) for l, h in zip(np.ravel(lo), np.ravel(hi))]
+    total = 1
+    for r in radix:
+        total *= r
+    idx = list(range(total)) if total <= n else sorted({(i * (total - 1)) // (n - 1) for i in range(n)})
+    out = np.zeros((len(idx), len(radix)), np.int64)
+    for k, i in enumerate(idx):
+        for c in range(len(radix) - 1, -1, -1):
+            i, out[k, c] = divmod(i, radix[c])
+    out = out + np.ravel(lo)[None, :]
+    return out.astype(dt).reshape((len(idx),) + tuple(shape)), total
+
+
 def leaf_diff(a: Any, b: Any, rtol: float = 1e-5, atol: float = 1e-6) -> List[str]:
     """Differences between two pytrees (structure, shape, dtype, values)."""
     la, ta = jax.tree_util.tree_flatten_with_path(a)[0], jax.tree_util.tree_structure(a)
